@@ -631,3 +631,12 @@ Definition yield_stops_timer_before_retry (o : option bool) : bool :=
 
 Definition cancel_waits_only_if_interrupt_sent (o : option bool) : bool :=
   match o with Some false => false | _ => true end.
+
+(** Every [Close] of a network peer that waits for its sender goroutine
+    ([<-_.writerDone]) bounds the sender's pending write first
+    ([SetWriteDeadline]; the [bounded] switch of [Conc/PeerClose.v]). *)
+Definition peer_close_bounds_pending_write (l : list (string * string * option bool)) : bool :=
+  forallb (fun t => match snd t with Some false => false | _ => true end) l.
+
+Definition unbounded_peer_closes (l : list (string * string * option bool)) : list (string * string) :=
+  map fst (filter (fun t => match snd t with Some false => true | _ => false end) l).
